@@ -38,17 +38,26 @@ func (*c13) Oracle(ci, oi any) []hx.Violation {
 		return nil
 	}
 	// defaultsShow: every path the recorded config says nothing about shows [dflt] in the rendering
-	defaultsShow := func(step int, what string, r *c13Rev, dflt vtree, sig string) {
+	defaultsShow := func(step int, what string, r *c13Rev, dflt vtree, sig string, ch *c04Chart) {
 		if dflt == nil {
 			dflt = vtree{}
 		}
+		depName := map[string]bool{}
+		if ch != nil {
+			for _, d := range ch.Deps {
+				depName[d.Name] = true
+			}
+		}
 		for _, p := range orAllPaths(r.Config, dflt, r.Rendered) {
-			if x, ok := orLeaf(p, r.Config); ok && x != nil {
+			// inside a subchart's section its own defaults fill in and the parent's globals win
+			// (C04/C11): there only a recorded non-global leaf is judged
+			inDep := depName[p[0]]
+			if x, ok := orLeaf(p, r.Config); ok && x != nil && !(inDep && orHasKey(p, "global")) {
 				if got, ok := orLeaf(p, r.Rendered); !ok || !vtEqual(got, x) {
 					add("rendered-user-value", fmt.Sprintf("step %d (%s): revision %d: path %s: recorded user value %#v, templates saw %#v (%v)", step, what, r.Version, pstr(p), x, got, ok))
 				}
 			}
-			if !orDefines(p, r.Config) {
+			if !inDep && !orDefines(p, r.Config) {
 				want, wok := vtLookup(p, dflt)
 				got, gok := vtLookup(p, r.Rendered)
 				if wok != gok || (wok && !vtEqual(want, got)) {
@@ -85,7 +94,7 @@ func (*c13) Oracle(ci, oi any) []hx.Violation {
 			if !vtEqual(nw.Config, newv) {
 				add("install-config", fmt.Sprintf("step %d: install recorded %#v, given %#v", i, nw.Config, newv))
 			}
-			defaultsShow(i, "install", nw, o.Chart.Values, "new-defaults-apply")
+			defaultsShow(i, "install", nw, o.Chart.Values, "new-defaults-apply", o.Chart)
 		case "rollback":
 			tv := o.Version
 			if tv == 0 {
@@ -136,6 +145,15 @@ func (*c13) Oracle(ci, oi any) []hx.Violation {
 							add("overlay-new-wins", fmt.Sprintf("step %d (%s): path %s: new value %#v, recorded %#v (%v)", i, mode, pstr(p), x, got, ok))
 						}
 					}
+					// a new null laid over a key the deployed revision holds (whatever it holds:
+					// scalar, list or table) removes the key from the recorded values
+					if x, ok := vtLookup(p, newv); ok && x == nil {
+						if _, held := vtLookup(p, cur.Config); held {
+							if got, still := vtLookup(p, nw.Config); still {
+								add("overlay-null-removes", fmt.Sprintf("step %d (%s): path %s: new null over a deployed value, but the recorded values still have %#v", i, mode, pstr(p), got))
+							}
+						}
+					}
 					if !orDefines(p, newv) {
 						want, wok := vtLookup(p, cur.Config)
 						got, gok := vtLookup(p, nw.Config)
@@ -146,9 +164,9 @@ func (*c13) Oracle(ci, oi any) []hx.Violation {
 				}
 			}
 			if mode == "reuse-values" {
-				defaultsShow(i, mode, nw, cur.Rendered, "old-defaults-stay")
+				defaultsShow(i, mode, nw, cur.Rendered, "old-defaults-stay", o.Chart)
 			} else {
-				defaultsShow(i, mode, nw, o.Chart.Values, "new-defaults-apply")
+				defaultsShow(i, mode, nw, o.Chart.Values, "new-defaults-apply", o.Chart)
 			}
 		}
 	}
